@@ -19,12 +19,18 @@ def confirm(src, dest_id, prop):
     shutil.copy("/repo/probdiffeq/_version.py", f"{wt}/probdiffeq/_version.py")
     env = dict(os.environ, PYTHONPATH=wt)
     res = {"property": prop, "source": src}
+    # demos may assert the worktree they were written in: retarget them to the scratch worktree
+    origin_root = os.path.dirname(os.path.abspath(src))
+    demo_txt = open(f"{src}/demo.py").read().replace(origin_root, wt)
+    os.makedirs(f"{wt}/_seed", exist_ok=True)
+    open(f"{wt}/_seed/demo.py", "w").write(demo_txt)
+    src_demo = f"{wt}/_seed"
     try:
-        rc, out = sh(f"{PY} {src}/demo.py", cwd=wt, env=env)
+        rc, out = sh(f"{PY} {src_demo}/demo.py", cwd=wt, env=env)
         res["demo_unchanged"] = {"exit": rc, "tail": out[-300:]}
         rc, out = sh(f"git apply {src}/patch.diff", cwd=wt)
         assert rc == 0, "patch does not apply: " + out
-        rc, out = sh(f"{PY} {src}/demo.py", cwd=wt, env=env)
+        rc, out = sh(f"{PY} {src_demo}/demo.py", cwd=wt, env=env)
         res["demo_with_change"] = {"exit": rc, "tail": out[-300:]}
         rc, out = sh(f"{PY} -m pytest -q -p no:cacheprovider --timeout=900 -n 8 -x", cwd=wt, env=env)
         res["suite_with_change"] = {"exit": rc, "tail": out.strip().splitlines()[-1] if out.strip() else ""}
